@@ -17,14 +17,15 @@ soundness obligation: the documentation does not fix their outcome.
 import z3
 
 from mirsym.values import *
-from mirsym.models import val_eq
+from mirsym.models import val_eq, NONE
+from mirsym.engine import parse_callee, Unmodelled, ExecError, BoundExceeded
 from spec import grammar as G
 from . import tok
 from .tokdiff import TokOracle, help_names, assume_not_named, run_tok_job, finish_tok, spec_env
 from .corpus import CORPUS
 
 PROP = "C19"
-GRAMMARS = ["k1", "k2", "k3", "k4", "k5", "kc"]
+GRAMMARS = ["k1", "k2", "k3", "k4", "k5", "kc", "k6"]
 
 N_P = G.Named("req_flag", "p", ["point"])
 N_R = G.Named("req_flag", "r", ["rect"])
@@ -175,6 +176,36 @@ def scan(ex, env, gname, items):
         if other:
             return ("other", other)
         return ("clean", (sw == 1, G.SOME(blocks[0]) if blocks else G.NONE, G.SOME(env.value(rest[0])) if rest else G.NONE))
+    if gname == "k6":
+        # nested adjacent groups: a block is `--rect` immediately followed by a complete `--point X Y` block
+        while i < n:
+            it = items[i]
+            if it.kind == "dd":
+                if i + 1 < n:
+                    return ("broken", "positional data")
+                i += 1
+                continue
+            if m(ex, env, N_R, it):
+                if it.adj:
+                    return ("broken", "rect with attached value")
+                if i + 3 < hi + 0 and i + 3 <= hi - 1 and m(ex, env, N_P, items[i + 1]) and not items[i + 1].adj \
+                        and items[i + 2].kind == "word" and items[i + 3].kind == "word":
+                    if not (valid(ex, env, items[i + 2].val) and valid(ex, env, items[i + 3].val)):
+                        return ("broken", "invalid member value")
+                    blocks.append((env.value(items[i + 2].val), env.value(items[i + 3].val)))
+                    i += 4
+                    continue
+                return ("broken", "rect block cut short or interrupted")
+            if m(ex, env, N_S, it):
+                if it.adj:
+                    return ("broken", "switch with attached value")
+                sw += 1
+                i += 1
+                continue
+            return ("broken", "foreign item (or --point away from its --rect)")
+        if sw > 1:
+            return ("broken", "switch twice")
+        return ("clean", (Seq(tuple(blocks)), sw == 1))
     if gname == "kc":
         vs = 0
         while i < n:
@@ -268,6 +299,8 @@ class Oracle(TokOracle):
                 pairs = [payload[1].fields[0]] if payload[1].var == 1 else []
             elif g.name == "k4":
                 pairs = list(payload[1].items)
+            elif g.name == "k6":
+                pairs = list(payload[0].items)
             last_start = -1
             for pr in pairs:
                 sa, sb = u32_src(pr[0]), u32_src(pr[1])
@@ -276,6 +309,12 @@ class Oracle(TokOracle):
                 bad = None
                 if ia is None or ib is None:
                     bad = "group value does not come from an item"
+                elif g.name == "k6":
+                    if ib != ia + 1 or ia < 2:
+                        bad = "X and Y are not neighbours right after --rect --point"
+                    elif ex.prove(self.match_cond(ex, N_P, items[ia - 1])) is not None or ex.prove(self.match_cond(ex, N_R, items[ia - 2])) is not None:
+                        bad = "block does not start with --rect --point"
+                    start = ia - 2
                 elif g.name == "k1":
                     if ib != ia + 1 or ia == 0:
                         bad = "X and Y are not neighbours right after the flag"
@@ -335,19 +374,132 @@ def make_jobs(tier, seed, build):
         if gname == "k5" and tier == "quick":
             # the smallest interrupted block with something to its left needs 4 words
             shapes += [("word",) + t for t in __import__("itertools").product(("short", "long", "short=", "long="), repeat=3)]
+        if gname == "k6" and tier == "quick":
+            # a complete nested block is 4 words; the inner block left or right of its anchor
+            fl = ("short", "long")
+            shapes += [(a, b, "word", "word") for a in fl for b in fl] + [(a, "word", "word", b) for a in fl for b in fl]
         for shape in shapes:
             if True:
                 if len(shape) >= 4 and ("dd" in shape[:-1]):
                     continue
                 jobs.append({"id": "%s:%s" % (gname, ",".join(shape)), "grammar": gname, "shape": shape, "fs": "none"})
+    for n in range(1, (4 if tier == "quick" else 5) + 1):
+        for mask in range(1 << n):
+            jobs.append({"id": "lemma:%d:%s" % (n, format(mask, "0%db" % n)), "kind": "lemma", "n": n, "present": mask, "shape": (), "weight": n})
     return jobs
 
 
+def run_lemma_job(job, build):
+    """ParseAdjacent::eval from an arbitrary well-formed state (any subset of the n items already
+    consumed, any scope) around a solver-chosen deterministic inner parser (lemmas.det_parser):
+      * Ok  => the items it consumed form one contiguous run of the command line
+      * Ok / Err => the caller's scope is restored and the representation invariant holds"""
+    from . import lemmas
+    from mirsym.models import rd
+    prog = tok.load_program(build, "none")
+    models = dict(tok.TOK_MODELS)
+    lemmas.install_det(models)
+    ex = tok.new_exec(prog, models=models, step_budget=2000000)
+    n = job["n"]
+    mask = job["present"]
+    out = {"stats": None, "cex": [], "inconclusive": [], "samples": [], "nontrivial": 0, "classes": {}, "obligations": 0}
+    L = prog.layout
+
+    def harness(ex):
+        words = [tok.Word("word", val=ex.fresh("w", "int")) for _ in range(n)]
+        items = tok.words_to_items(ex, words)
+        present = [bool(mask >> i & 1) for i in range(n)]
+        ist = Seq(tuple(Adt("ItemState", L.variant_index("ItemState", "Unparsed" if p else "Parsed"), ()) for p in present))
+        lo = tok.choose_free(ex, n + 1, "lo")
+        hi = lo + tok.choose_free(ex, n + 1 - lo, "hi")
+        rem = sum(1 for i in range(n) if present[i] and lo <= i < hi)
+        fields = {"items": Seq(tuple(items)), "item_state": ist, "remaining": rem, "current": NONE,
+                  "path": Seq(()), "scope": Adt("Range", 0, (lo, hi)), "comp": NONE}
+        st = Adt("State", 0, tuple(fields[f] for f in L.adts["State"]["fields"]))
+        inner = lemmas.det_parser(ex, n)
+        ref = Ref(Cell(st, "state"), ())
+        w = Adt("ParseAdjacent", 0, (inner,))
+        r = ex.call(parse_callee("<P as Parser<T>>::eval"), [Ref(Cell(w, "adj"), ()), ref])
+        return (r, present, rd(ref), (lo, hi), inner)
+
+    def on_path(ex, r):
+        out["obligations"] += 1
+        out["nontrivial"] += 1
+        if r.kind != "ok":
+            out["cex"].append({"kind": "lemma-panics", "n": n, "present": mask, "info": str(r.info)})
+            return
+        res, pre, post, (lo, hi), inner = r.value
+        postp = lemmas.present_vec(ex, post)
+        f = lemmas.fields_of(ex, post)
+        desc = "n=%d present=%s scope=%d..%d inner claims %s, rule %s" % (n, "".join("1" if p else "0" for p in pre), lo, hi, list(inner.fields[0]), inner.fields[1])
+        cls = "ok" if res.var == 0 else "err"
+        out["classes"][cls] = out["classes"].get(cls, 0) + 1
+        bad = None
+        plo, phi = f["scope"].fields
+        if (plo, phi) != (lo, hi):
+            bad = "scope %r..%r after the call, %d..%d before" % (plo, phi, lo, hi)
+        elif f["remaining"] != sum(1 for i in range(n) if postp[i] and lo <= i < hi):
+            bad = "`remaining` is %r, the ledger says %d" % (f["remaining"], sum(1 for i in range(n) if postp[i] and lo <= i < hi))
+        taken = [i for i in range(n) if pre[i] and not postp[i]]
+        if bad is None and cls == "ok" and taken and taken != list(range(taken[0], taken[-1] + 1)):
+            bad = "Ok after consuming the non-contiguous items %s" % taken
+        if bad is None and any(not (lo <= i < hi) for i in taken):
+            bad = "consumed items %s outside the scope" % taken
+        if bad:
+            out["cex"].append({"kind": "lemma-adjacent", "n": n, "present": mask, "info": "%s: %s" % (desc, bad)})
+        elif len(out["samples"]) < 1 and cls == "ok" and len(taken) >= 2:
+            out["samples"].append({"lemma": desc, "consumed": taken})
+    try:
+        ex.explore(harness, on_path, max_paths=500000)
+    except (Unmodelled, BoundExceeded, ExecError) as e:
+        out["inconclusive"].append("%s %s [%s]" % (type(e).__name__, e, "/".join(ex.callstack[-3:])))
+    out["stats"] = dict(ex.stats)
+    out["models_used"] = dict(ex.model_hits)
+    out["fn_hits"] = dict(ex.fn_hits)
+    return out
+
+
 def run_job(job, build):
+    if job.get("kind") == "lemma":
+        return run_lemma_job(job, build)
     return run_tok_job(job, build, CORPUS, Oracle(), max_validate=150)
 
 
 def finish(results, jobs, build, out, tier, seed, wall):
+    from . import framework as fw
+    byid = {j["id"]: j for j in jobs}
+    lem = [r for r in results if byid[r["job"]].get("kind") == "lemma"]
+    results = [r for r in results if byid[r["job"]].get("kind") != "lemma"]
+    ljobs = [j for j in jobs if j.get("kind") == "lemma"]
+    jobs = [j for j in jobs if j.get("kind") != "lemma"]
+    ev = _finish_corpus(results, jobs, build, out, tier, seed, wall)
+    st = fw.merge_stats(lem)
+    for r in lem:
+        if r.get("error"):
+            out.inconc("job %s crashed: %s" % (r["job"], r["error"]))
+        for w in r.get("inconclusive", []):
+            out.inconc("%s: %s" % (r["job"], w))
+        for c in r.get("cex", []):
+            # kernel-level counterexample: the state is reachable (any subset of items may have been consumed
+            # by enclosing parsers), the inner parser is a model of a user parser, so there is no argv to replay
+            out.violation("%s:%d:%d" % (c["kind"], c["n"], c["present"]), "ParseAdjacent::eval %s" % c["info"], c)
+    cov = ev["coverage"]
+    cov["lemma"] = {"jobs": len(ljobs), "paths": st["paths"], "items": "1..=%d" % (4 if tier == "quick" else 5),
+                    "pre_states": "every subset of items already consumed x every scope", "inner_parser": "every claimed index set x rules " + ", ".join(__import__("props.lemmas", fromlist=["x"]).DET_RULES),
+                    "outcomes": fw.merge_counts(lem, "classes")}
+    cov["evaluations"] += st["queries"]
+    cov["states"] += st["paths"]
+    cov["transitions"] += st["decisions"]
+    cov["distinct_nontrivial"] += sum(r.get("nontrivial", 0) for r in lem)
+    cov["jobs"] = len(jobs) + len(ljobs)
+    cov["functions_encoded"] = sorted(set(cov["functions_encoded"]) | set(fw.merge_counts(lem, "fn_hits")))
+    ev["assumptions"] = list(ev["assumptions"]) + [
+        "lemma jobs: the inner parser of the adjacent group is a deterministic function of the state it is shown (claims a fixed index set when present and in scope; four success rules); parsers whose consumption depends on history other than the state are outside the lemma",
+    ]
+    return ev
+
+
+def _finish_corpus(results, jobs, build, out, tier, seed, wall):
     from . import framework as fw
     ev = finish_tok(PROP, results, jobs, build, out, tier, seed, wall, Oracle(), CORPUS,
                     {"argv_words": "0..=%d (a complete --point block is 3 words, a complete --rect block 3 words with attached values or 5 with separate ones)" % (3 if tier == "quick" else 4), "grammars": GRAMMARS})
